@@ -4,7 +4,7 @@
    (1) and x/slashing finds what it needs, can slash and can jail (2). *)
 From stdpp Require Import gmap.
 Require Import Model.Base Model.Ante Model.Validate Model.Current Model.State Model.Staking Model.Slashing Model.Poa Model.App.
-Require Import proofs.Inv proofs.InvIdx proofs.L1Effects proofs.InvPres proofs.InvMsgs proofs.InvHistory proofs.InvQueue proofs.InvPools proofs.InvComet proofs.InvElig proofs.InvLive.
+Require Import proofs.EvBasic proofs.Inv proofs.InvIdx proofs.L1Effects proofs.InvPres proofs.InvMsgs proofs.InvHistory proofs.InvQueue proofs.InvPools proofs.InvComet proofs.InvElig proofs.InvLive.
 Open Scope Z_scope.
 
 (* records persist with their key and unbonding time; a status changes at most to Bonded; signing infos persist *)
@@ -15,9 +15,9 @@ Definition rstable (c c' : chain) : Prop :=
   (forall k, is_Some (infos (sl c) !! k) -> is_Some (infos (sl c') !! k)) /\
   now c' = now c.
 
-(* every bonded validator has a signing info *)
+(* every validator that is bonded or unbonding (that has been in the set) has a signing info *)
 Definition BInfo (c : chain) : Prop :=
-  forall id v, vals (stk c) !! id = Some v -> v_status v = Bonded -> is_Some (infos (sl c) !! v_cons v).
+  forall id v, vals (stk c) !! id = Some v -> v_status v <> Unbonded -> is_Some (infos (sl c) !! v_cons v).
 
 Lemma rstable_refl c : rstable c c.
 Proof. split; [|split]; auto. intros id v H. exists v. auto. Qed.
@@ -48,7 +48,7 @@ Proof. intros Hv Hi HB id v. rewrite Hv. intros H Hs. apply Hi. eapply HB; eauto
 
 Lemma BInfo_insert c c' id v v' :
   BInfo c -> vals (stk c) !! id = Some v -> vals (stk c') = <[id := v']> (vals (stk c)) -> v_cons v' = v_cons v ->
-  (v_status v' = Bonded -> v_status v = Bonded \/ is_Some (infos (sl c') !! v_cons v)) ->
+  (v_status v' <> Unbonded -> v_status v <> Unbonded \/ is_Some (infos (sl c') !! v_cons v)) ->
   (forall k, is_Some (infos (sl c) !! k) -> is_Some (infos (sl c') !! k)) -> BInfo c'.
 Proof.
   intros HB Hv Hvals Hc Hst Hi j w. rewrite Hvals. destruct (decide (j = id)) as [->|Hne].
@@ -121,11 +121,37 @@ Proof.
   split; [eapply rstable_trans; eauto|auto].
 Qed.
 
-Lemma begin_block_rstable c votes absent c' : begin_block c votes absent = inl c' -> rstable c c' /\ (BInfo c -> BInfo c').
+Lemma handle_evidence_rstable c e c' : handle_evidence c e = Some c' -> rstable c c' /\ (BInfo c -> BInfo c').
+Proof.
+  intros H. apply handle_evidence_cases in H as [->|(id & v & i & c1 & s2 & _ & _ & _ & _ & _ & _ & Es & Hj & ->)]; [split; [apply rstable_refl|auto]|].
+  destruct (slash_rstable _ _ _ _ _ Es) as [R1 B1].
+  assert (R3 : rstable (with_stk c1 s2) (with_sl (with_stk c1 s2) (set_info (sl c1) (ev_cons e) (tombstoned i)))).
+  { split; [|split]; [intros j w Hw; exists w; auto| |reflexivity]. intros x Hx. apply infos_set_info. exact Hx. }
+  destruct Hj as [[_ ->]|[_ Ej]].
+  - assert (E1 : with_stk c1 (stk c1) = c1) by (destruct c1; reflexivity). rewrite E1 in *.
+    split; [eapply rstable_trans; [exact R1|exact R3]|].
+    intros HB. eapply (BInfo_same c1); [reflexivity| |exact (B1 HB)]. intros x Hx. apply infos_set_info. exact Hx.
+  - destruct (jail_rstable _ _ _ Ej) as [R2 B2].
+    split; [eapply rstable_trans; [exact R1|eapply rstable_trans; [exact R2|exact R3]]|].
+    intros HB. eapply (BInfo_same (with_stk c1 s2)); [reflexivity| |exact (B2 (B1 HB))]. intros x Hx. apply infos_set_info. exact Hx.
+Qed.
+
+Lemma handle_evidences_rstable evs : forall c c', handle_evidences evs c = Some c' -> rstable c c' /\ (BInfo c -> BInfo c').
+Proof.
+  induction evs as [|e rest IH]; cbn; intros c c'; [intros [= <-]; split; [apply rstable_refl|auto]|].
+  destruct (handle_evidence c e) as [c1|] eqn:E; [|discriminate]. intros H.
+  destruct (handle_evidence_rstable _ _ _ E) as [R1 B1]. destruct (IH _ _ H) as [R2 B2].
+  split; [eapply rstable_trans; eauto|auto].
+Qed.
+
+Lemma begin_block_rstable c votes absent evs c' : begin_block c votes absent evs = inl c' -> rstable c c' /\ (BInfo c -> BInfo c').
 Proof.
   unfold begin_block. destruct (_ && _); [discriminate|]. destruct (handle_votes votes absent c) as [c1|] eqn:E; [|discriminate].
-  intros [= <-]. destruct (handle_votes_rstable _ _ _ _ E) as [R B]. unfold poa_begin_block. destruct (1 <? height c1); [|auto].
-  split; [eapply rstable_trans; [exact R|apply rstable_same; reflexivity]|]. intros HB. eapply (BInfo_same c1); [reflexivity|auto|exact (B HB)].
+  destruct (handle_evidences evs c1) as [c2|] eqn:E2; [|discriminate].
+  intros [= <-]. destruct (handle_votes_rstable _ _ _ _ E) as [R B]. destruct (handle_evidences_rstable _ _ _ E2) as [R' B'].
+  unfold poa_begin_block. destruct (1 <? height c2); [|split; [eapply rstable_trans; eauto|auto]].
+  split; [eapply rstable_trans; [exact R|eapply rstable_trans; [exact R'|apply rstable_same; reflexivity]]|].
+  intros HB. eapply (BInfo_same c2); [reflexivity|auto|exact (B' (B HB))].
 Qed.
 
 (* ---- PoA messages ---- *)
@@ -163,7 +189,7 @@ Proof.
   split; [|split; [|split]].
   - split; [|split]; [|exact Hinf|rewrite Hn; reflexivity]. intros j w Hw. exists w. rewrite Hs. cbn. rewrite lookup_insert_ne; [auto|]. intros <-. congruence.
   - intros HB j w. rewrite Hs. cbn. destruct (decide (j = p_oper p)) as [->|Hne].
-    + rewrite lookup_insert. intros [= <-]. cbn. discriminate.
+    + rewrite lookup_insert. intros [= <-]. cbn. intros Hc. exfalso. apply Hc. reflexivity.
     + rewrite lookup_insert_ne by auto. intros Hw Hst. apply Hinf. eapply HB; eauto.
   - eexists. rewrite Hs. cbn. rewrite lookup_insert. split; [reflexivity|reflexivity].
   - rewrite Hl. cbn. rewrite lookup_insert. eauto.
@@ -199,7 +225,7 @@ Proof.
       assert (Hfin : forall c3, update_bonded_pool c2 = MOk c3 -> rstable c c3 /\ (BInfo c -> BInfo c3)).
       { intros c3 H3. destruct (update_bonded_pool_rstable _ _ H3) as [R3 B3]. split; [eapply rstable_trans; eauto|].
         intros HB. apply B3. apply B2; [exact HB|]. intros w Hw. unfold ensure_active in Ee. rewrite Hw in Ee. destruct (v_jailed w); [discriminate|].
-        destruct (v_status w) eqn:Est; cbn in Ee; try discriminate. eapply HB; eauto. }
+        destruct (v_status w) eqn:Est; cbn in Ee; try discriminate. eapply HB; [exact Hw|rewrite Est; discriminate]. }
       destruct (negb u && (1 <? height c2)); [destruct (_ =? 0); [discriminate|]; destruct (30 <=? _); [discriminate|]|]; apply Hfin.
   - unfold msg_remove_validator. destruct (if is_admin s then None else _); [discriminate|]. destruct (_ =? 0); [discriminate|].
     destruct (vals (stk c) !! v) as [vv|] eqn:Hv; [|discriminate]. destruct (status_eqb (v_status vv) Bonded) eqn:Est; cbn [negb]; [|discriminate].
@@ -210,7 +236,7 @@ Proof.
     destruct (update_bonded_pool_rstable _ _ H) as [R3 B3].
     split; [eapply rstable_trans; [exact R1|eapply rstable_trans; [exact R2|exact R3]]|].
     intros HB. apply B3. eapply (BInfo_same c1); [reflexivity|intros x Hx; apply infos_set_info; exact Hx|].
-    apply B1; [exact HB|]. intros w Hw. rewrite Hv in Hw. inversion Hw; subst w. eapply HB; eauto. destruct (v_status vv); try discriminate; reflexivity.
+    apply B1; [exact HB|]. intros w Hw. rewrite Hv in Hw. inversion Hw; subst w. eapply HB; [exact Hv|]. destruct (v_status vv); try discriminate.
   - unfold msg_remove_pending. destruct (negb _); [discriminate|]. intros [= <-]. split; [apply rstable_same; reflexivity|]. intros HB. eapply (BInfo_same c); [reflexivity|auto|exact HB].
   - destruct r as [r|], mx as [mx|], ch as [ch|]; try discriminate.
     unfold msg_create_validator. destruct (poa_create_validate _); try discriminate. destruct (_ <? _); [discriminate|].
@@ -360,7 +386,7 @@ Proof.
     right. split; [reflexivity|]. cbn. unfold usecs in HUeq. rewrite HUeq. reflexivity. }
   split; [eapply eb_rel_trans; eauto|].
   intros HB. apply B2. intros j w. rewrite Hvals. destruct (decide (j = i)) as [->|Hne].
-  - rewrite lookup_insert. intros [= <-]. cbn. discriminate.
+  - rewrite lookup_insert. intros [= <-] _. subst c1. cbn. eapply (HB i v Hv). intros Hc. rewrite Hc in Est. discriminate.
   - rewrite lookup_insert_ne by auto. intros Hw Hs. subst c1. cbn. eapply HB; eauto.
 Qed.
 
@@ -395,9 +421,9 @@ Proof.
     intros id Hno. apply O2. intros t' h' ids' Hin Ht. apply (Hno t' h' ids'); [right; exact Hin|exact Ht].
 Qed.
 
-(* maturity never produces a bonded record: the bonded records after it are records it did not touch *)
+(* maturity produces only Unbonded records: the bonded and unbonding records after it are records it did not touch *)
 Lemma mature_ids_bonded ids : forall c c', mature_ids ids c = Some c' ->
-  forall id v', vals (stk c') !! id = Some v' -> v_status v' = Bonded -> vals (stk c) !! id = Some v'.
+  forall id v', vals (stk c') !! id = Some v' -> v_status v' <> Unbonded -> vals (stk c) !! id = Some v'.
 Proof.
   induction ids as [|i rest IH]; cbn [mature_ids]; intros c c'; [intros [= <-]; auto|].
   destruct (vals (stk c) !! i) as [v|] eqn:Hv; [|discriminate]. destruct (negb _); [discriminate|].
@@ -406,12 +432,12 @@ Proof.
   - destruct (0 <? v_tokens v0); [discriminate|]. intros H id v' Hv' Hs. specialize (IH _ _ H id v' Hv' Hs). cbn in IH.
     apply lookup_delete_Some in IH as [Hne IH]. rewrite lookup_insert_ne in IH by auto. exact IH.
   - intros H id v' Hv' Hs. specialize (IH _ _ H id v' Hv' Hs). cbn in IH. destruct (decide (id = i)) as [->|Hne].
-    + rewrite lookup_insert in IH. inversion IH; subst v'. cbn in Hs. discriminate.
+    + rewrite lookup_insert in IH. inversion IH; subst v'. cbn in Hs. exfalso. apply Hs. reflexivity.
     + rewrite lookup_insert_ne in IH by auto. exact IH.
 Qed.
 
 Lemma mature_slots_bonded slots : forall c c', mature_slots slots c = Some c' ->
-  forall id v', vals (stk c') !! id = Some v' -> v_status v' = Bonded -> vals (stk c) !! id = Some v'.
+  forall id v', vals (stk c') !! id = Some v' -> v_status v' <> Unbonded -> vals (stk c) !! id = Some v'.
 Proof.
   induction slots as [|[[t h] ids] rest IH]; cbn [mature_slots]; intros c c'; [intros [= <-]; auto|].
   destruct (_ && _); [|apply IH]. destruct (mature_ids ids c) as [c1|] eqn:E; [|discriminate]. intros H id v' Hv' Hs.
@@ -476,10 +502,12 @@ Proof.
   - inversion E; reflexivity.
 Qed.
 
-Lemma begin_block_slp c votes absent c' : begin_block c votes absent = inl c' -> slp c' = slp c.
+Lemma begin_block_slp c votes absent evs c' : begin_block c votes absent evs = inl c' -> slp c' = slp c.
 Proof.
   unfold begin_block. destruct (_ && _); [discriminate|]. destruct (handle_votes votes absent c) as [c1|] eqn:E; [|discriminate].
-  intros [= <-]. apply handle_votes_slp in E. unfold poa_begin_block. destruct (1 <? height c1); exact E.
+  destruct (handle_evidences evs c1) as [c2|] eqn:E2; [|discriminate].
+  intros [= <-]. apply handle_votes_slp in E. apply handle_evidences_frame in E2 as (_ & _ & _ & _ & _ & _ & _ & _ & _ & _ & P & _).
+  unfold slp in *. unfold poa_begin_block. destruct (1 <? height c2); cbn; congruence.
 Qed.
 
 Lemma set_poa_power_slp c val n c' : set_poa_power c val n = MOk c' -> slp c' = slp c.
@@ -623,14 +651,84 @@ Proof.
   intros HS (id & v & Hv & Hk & _). subst k. unfold voter_known. rewrite (si_bycons _ HS id v Hv). apply bool_decide_eq_true. rewrite Hv. eauto.
 Qed.
 
-Theorem begin_block_never_fails c votes absent :
-  CI c -> BI c -> 0 <= slp_slash_down_bp (slp c) -> (forall k p, In (k, p) votes -> ok_voter c k) ->
-  exists c', begin_block c votes absent = inl c'.
+(* an evidence entry the environment may deliver: about a validator that still has its record (CometBFT drops evidence older
+   than its max age, which a chain keeps below the unbonding period), of a height that is not in the future; that the signing
+   info x/evidence insists on is there is not assumed: BInfo provides it *)
+Definition ok_evidence (c : chain) (e : evidence) : Prop :=
+  (exists id v, vals (stk c) !! id = Some v /\ v_cons v = ev_cons e) /\ ev_height e - 1 <= height c.
+
+Lemma ok_evidence_rstable c c' e : rstable c c' -> height c' = height c -> ok_evidence c e -> ok_evidence c' e.
 Proof.
-  intros HCI HB Hbp Hok. unfold begin_block.
+  intros (R & I & _) Hh [(id & v & Hv & Hk) He]. destruct (R id v Hv) as (v' & Hv' & C & _). split; [|lia].
+  exists id, v'. split; [exact Hv'|]. congruence.
+Qed.
+
+Lemma handle_evidence_never_fails c e :
+  CI c -> BI c -> BInfo c -> 0 <= slp_slash_dbl_bp (slp c) -> ok_evidence c e -> exists c', handle_evidence c e = Some c'.
+Proof.
+  intros [HS HP] HB HBI Hbp [(id & v & Hv & Hk) He]. destruct e as [ek eh et ep]. cbn in Hk, He. subst ek.
+  unfold handle_evidence. cbn [ev_cons ev_height ev_time ev_power].
+  rewrite (si_bycons _ HS id v Hv), Hv. destruct (status_eqb (v_status v) Unbonded) eqn:Est; [eauto|].
+  destruct (_ && _); [eauto|].
+  destruct (HBI id v Hv) as [i Hi]; [intros Hc; rewrite Hc in Est; discriminate|].
+  rewrite Hi. destruct (si_tomb i); [eauto|].
+  destruct (Z.ltb_spec (height c) (eh - 1)); [lia|].
+  destruct (slash c (v_cons v) ep _) as [c1|] eqn:Es.
+  - destruct (v_jailed v) eqn:Hj; [eauto|].
+    assert (Hj1 : exists s2, jail (stk c1) (v_cons v) = Some s2).
+    { unfold jail. pose proof (slash_frame _ _ _ _ _ Es) as (_ & _ & _ & _ & _ & Hbc & _). rewrite Hbc. rewrite (si_bycons _ HS id v Hv).
+      revert Es. unfold slash. destruct (_ <? 0); [discriminate|]. rewrite (si_bycons _ HS id v Hv), Hv. rewrite Est.
+      destruct (_ =? 0); [intros [= <-]; rewrite Hv, Hj; eauto|].
+      destruct (if status_eqb (v_status v) Bonded then _ else _); [|discriminate]. intros [= <-]. cbn.
+      unfold set_index, set_validator, del_index. cbn. rewrite Hj. cbn. rewrite lookup_insert. cbn. rewrite Hj. eauto. }
+    destruct Hj1 as [s2 ->]. eauto.
+  - exfalso. apply (slash_funds c (v_cons v) ep _ HB (si_tok _ HS)) in Es as [Hneg|(id' & v' & Hbc & Hv' & Hun)].
+    + unfold slp in Hbp. assert (0 <= slp_slash_dbl_bp (slparams (sl c)) * (dec_one / 10000)) by (apply Z.mul_nonneg_nonneg; [exact Hbp|apply Z.div_pos; [unfold dec_one; lia|lia]]). lia.
+    + rewrite (si_bycons _ HS id v Hv) in Hbc. inversion Hbc; subst id'. rewrite Hv in Hv'. inversion Hv'; subst v'.
+      rewrite Hun in Est. discriminate.
+Qed.
+
+Lemma handle_evidences_never_fails evs : forall c,
+  CI c -> BI c -> BInfo c -> 0 <= slp_slash_dbl_bp (slp c) -> Forall (ok_evidence c) evs -> exists c', handle_evidences evs c = Some c'.
+Proof.
+  induction evs as [|e rest IH]; cbn; intros c HCI HB HBI Hbp Hok; [eauto|].
+  inversion Hok as [|? ? He Hrest]; subst.
+  destruct (handle_evidence_never_fails c e HCI HB HBI Hbp He) as [c1 E]. rewrite E.
+  destruct (handle_evidence_rstable _ _ _ E) as [R BB]. apply IH.
+  - eapply handle_evidence_CI; eauto.
+  - eapply handle_evidence_BI; eauto.
+  - exact (BB HBI).
+  - pose proof (handle_evidence_frame _ _ _ E) as (_ & _ & _ & _ & _ & _ & _ & _ & _ & _ & P & _). unfold slp. rewrite P. exact Hbp.
+  - pose proof (handle_evidence_frame _ _ _ E) as (_ & _ & Hh & _).
+    eapply List.Forall_impl; [|exact Hrest]. intros e' He'. eapply ok_evidence_rstable; eauto.
+Qed.
+
+Lemma handle_votes_height votes absent : forall c c', handle_votes votes absent c = Some c' -> height c' = height c.
+Proof.
+  induction votes as [|[k p] vs IH]; cbn; intros c c'; [intros [= <-]; reflexivity|].
+  destruct (handle_signature c k p _) as [c1|] eqn:E; [|discriminate]. intros H. rewrite (IH _ _ H). clear H IH.
+  unfold handle_signature in E. destruct (by_cons (stk c) !! k) as [id|]; [|discriminate].
+  destruct (vals (stk c) !! id) as [v|]; [|discriminate]. destruct (v_jailed v); [inversion E; reflexivity|].
+  destruct (infos (sl c) !! k) as [i|]; [|discriminate]. destruct (if negb _ && negb _ then _ else _) as [bm' cnt].
+  destruct (_ && _).
+  - destruct (slash c k p _) as [cs|] eqn:Es; [|discriminate]. destruct (jail (stk cs) k) as [s2|]; [|discriminate].
+    inversion E; subst. cbn. apply slash_frame in Es as (_ & _ & _ & Hh & _). exact Hh.
+  - inversion E; reflexivity.
+Qed.
+
+Theorem begin_block_never_fails c votes absent evs :
+  CI c -> BI c -> BInfo c -> 0 <= slp_slash_down_bp (slp c) -> 0 <= slp_slash_dbl_bp (slp c) ->
+  (forall k p, In (k, p) votes -> ok_voter c k) -> Forall (ok_evidence c) evs ->
+  exists c', begin_block c votes absent evs = inl c'.
+Proof.
+  intros HCI HB HBI Hbp Hbp2 Hok Hev. unfold begin_block.
   assert (Hall : forallb (fun v => voter_known c (fst v)) votes = true).
   { apply forallb_forall. intros [k p] Hin. cbn. apply ok_voter_known; [apply HCI|]. eapply Hok; eauto. }
-  rewrite Hall. rewrite andb_false_r. destruct (handle_votes_never_fails votes absent c HCI HB Hbp Hok) as [c1 ->]. eauto.
+  rewrite Hall. rewrite andb_false_r. destruct (handle_votes_never_fails votes absent c HCI HB Hbp Hok) as [c1 E]. rewrite E.
+  destruct (handle_evidences_never_fails evs c1) as [c2 ->]; [eapply handle_votes_CI; eauto|eapply handle_votes_BI; eauto| | | |eauto].
+  - destruct (handle_votes_rstable _ _ _ _ E) as [_ BB]. exact (BB HBI).
+  - rewrite (handle_votes_slp _ _ _ _ E). exact Hbp2.
+  - destruct (handle_votes_rstable _ _ _ _ E) as [R _]. eapply List.Forall_impl; [|exact Hev]. intros e He. eapply ok_evidence_rstable; [exact R|eapply handle_votes_height; eauto|exact He].
 Qed.
 
 (* ---- the staking parameters change only through an accepted MsgUpdateStakingParams ---- *)
@@ -714,22 +812,30 @@ Definition VI (m : Z) (w : world) : Prop :=
   let c := w_chain w in
   (forall vs k, c_prev (w_comet w) = Some vs -> is_Some (vs !! k) -> ok_voter c k) /\
   (forall k, is_Some (c_cur (w_comet w) !! k) -> ok_at (now c + m) c k) /\
-  BInfo c /\ m <= usecs (stk c) /\ 0 <= slp_slash_down_bp (slp c).
+  BInfo c /\ m <= usecs (stk c) /\ 0 <= slp_slash_down_bp (slp c) /\ 0 <= slp_slash_dbl_bp (slp c).
 
 Lemma in_sorted_votes vs k p : In (k, p) (sorted_votes vs) -> is_Some (vs !! k).
 Proof.
   unfold sorted_votes. intros H. apply in_map_iff in H as (x & Heq & Hin). inversion Heq; subst x. apply (proj1 (proj2 (sorted_keys_spec vs) k)). exact Hin.
 Qed.
 
+(* the block's evidence entries are about validators the chain still knows (the state at the start of the block) *)
+Definition ok_evidence_at (w : world) (b : block) : Prop :=
+  Forall (ok_evidence (with_clock (w_chain w) (height (w_chain w) + 1) (now (w_chain w) + b_dt b))) (b_evidence b).
+
+Fixpoint ev_env (w : world) (bs : list block) : Prop :=
+  match bs with [] => True | b :: rest => ok_evidence_at w b /\ ev_env (fst (run_block w b)) rest end.
+
 (* BeginBlock of the next block succeeds *)
 Theorem block_begin_never_halts m w b e :
-  WI w -> BI (w_chain w) -> VI m w -> w_halted w = None -> w_halted (fst (run_block w b)) <> Some (HBeginBlock e).
+  WI w -> BI (w_chain w) -> VI m w -> ok_evidence_at w b -> w_halted w = None -> w_halted (fst (run_block w b)) <> Some (HBeginBlock e).
 Proof.
-  intros [HCI _] HB (Vp & _ & _ & _ & Hbp) Hh. unfold run_block. rewrite Hh.
+  intros [HCI _] HB (Vp & _ & VB & _ & Hbp & Hbp2) Hev Hh. unfold run_block. rewrite Hh.
   set (c0 := with_clock (w_chain w) (height (w_chain w) + 1) (now (w_chain w) + b_dt b)).
   assert (H0 : CI c0) by (apply CI_clock; exact HCI).
-  destruct (begin_block_never_fails c0 (match c_prev (w_comet w) with Some vs => sorted_votes vs | None => [] end) (b_absent b) H0 HB Hbp) as [c1 E].
+  destruct (begin_block_never_fails c0 (match c_prev (w_comet w) with Some vs => sorted_votes vs | None => [] end) (b_absent b) (b_evidence b) H0 HB VB Hbp Hbp2) as [c1 E].
   { intros k p Hin. destruct (c_prev (w_comet w)) as [vs|] eqn:Ep; [|destruct Hin]. apply in_sorted_votes in Hin. exact (Vp vs k eq_refl Hin). }
+  { exact Hev. }
   rewrite E. destruct (deliver_txs c1 (b_txs b)) as [c2 outs]. destruct (staking_end_block c2) as [c3 upd|]; [|cbn; discriminate].
   destruct (comet_apply _ upd); cbn; discriminate.
 Qed.
@@ -738,16 +844,16 @@ Lemma run_block_VI m w b :
   1 <= m -> WI w -> QI (stk (w_chain w)) -> VI m w -> ut_block m b -> w_halted w = None ->
   w_halted (fst (run_block w b)) = None -> VI m (fst (run_block w b)).
 Proof.
-  intros Hm [HCI Hrel] HQ (Vp & Vc & VB & VU & Vbp) [Hdt Hut] Hh. specialize (Hrel Hh). unfold run_block. rewrite Hh.
+  intros Hm [HCI Hrel] HQ (Vp & Vc & VB & VU & Vbp & Vbp2) [Hdt Hut] Hh. specialize (Hrel Hh). unfold run_block. rewrite Hh.
   set (c0 := with_clock (w_chain w) (height (w_chain w) + 1) (now (w_chain w) + b_dt b)).
   assert (H0 : CI c0) by (apply CI_clock; exact HCI). assert (Q0 : QI (stk c0)) by exact HQ.
-  destruct (begin_block c0 _ (b_absent b)) as [c1|e] eqn:Eb; [|cbn; discriminate].
-  pose proof (begin_block_CI _ _ _ _ H0 Eb) as H1. pose proof (begin_block_QI _ _ _ _ H0 Q0 Eb) as Q1.
-  destruct (begin_block_rstable _ _ _ _ Eb) as [R1 B1].
+  destruct (begin_block c0 _ (b_absent b) (b_evidence b)) as [c1|e] eqn:Eb; [|cbn; discriminate].
+  pose proof (begin_block_CI _ _ _ _ _ H0 Eb) as H1. pose proof (begin_block_QI _ _ _ _ _ H0 Q0 Eb) as Q1.
+  destruct (begin_block_rstable _ _ _ _ _ Eb) as [R1 B1].
   pose proof (deliver_txs_CI (b_txs b) c1 H1) as H2. pose proof (deliver_txs_QI (b_txs b) c1 H1 Q1) as Q2.
   destruct (deliver_txs_rstable (b_txs b) c1 H1) as [R2 B2].
   assert (U2 : m <= usecs (stk (fst (deliver_txs c1 (b_txs b))))).
-  { apply deliver_txs_usecs; [exact Hut|]. unfold usecs. rewrite (begin_block_params _ _ _ _ Eb). exact VU. }
+  { apply deliver_txs_usecs; [exact Hut|]. unfold usecs. rewrite (begin_block_params _ _ _ _ _ Eb). exact VU. }
   pose proof (deliver_txs_slp (b_txs b) c1) as S2.
   destruct (deliver_txs c1 (b_txs b)) as [c2 outs]. cbn in H2, Q2, R2, B2, U2, S2.
   assert (R02 : rstable c0 c2) by (eapply rstable_trans; eauto).
@@ -765,7 +871,7 @@ Proof.
   { intros k t (id & v & Hv & Hk & Hi & Hs) Ht _. assert (Hl : live c2 v) by (destruct Hs as [Hb|[Hu Hle]]; [left; exact Hb|right; split; [exact Hu|lia]]).
     destruct (R3 id v Hv Hl) as (v3 & Hv3 & C3 & S3). exists id, v, v3.
     split; [exact Hv|]. split; [exact Hk|]. split; [exact Hv3|]. split; [congruence|]. split; [apply I3; exact Hi|exact S3]. }
-  split; [|split; [|split; [|split]]].
+  split; [|split; [|split; [|split; [|split]]]].
   - (* the new previous set is the old current one *)
     cbn. intros vs k [= <-] Hk. specialize (Vc k Hk).
     assert (Hat : ok_at (now (w_chain w) + m) c2 k) by (eapply ok_at_rstable; [exact R02|exact Vc]).
@@ -775,7 +881,7 @@ Proof.
     cbn. intros k [p Hk].
     apply (Hrel k p) in Hk as (id & v & Hv & Hkv & Hl). destruct HCI as [HS HP]. destruct (si_last _ HS id p Hl) as (v' & Hv' & Hb). rewrite Hv in Hv'. inversion Hv'; subst v'.
     assert (Hat0 : ok_at (now c2 + 1) c0 k).
-    { exists id, v. split; [exact Hv|]. split; [exact Hkv|]. split; [rewrite <- Hkv; eapply VB; eauto|left; exact Hb]. }
+    { exists id, v. split; [exact Hv|]. split; [exact Hkv|]. split; [rewrite <- Hkv; eapply VB; [exact Hv|rewrite Hb; discriminate]|left; exact Hb]. }
     assert (Hat : ok_at (now c2 + 1) c2 k) by (eapply ok_at_rstable; [exact R02|exact Hat0]).
     destruct Hat as (id2 & v2 & Hv2 & Hk2 & Hi2 & Hs2).
     (* the record is still bonded before the EndBlocker *)
@@ -788,33 +894,33 @@ Proof.
     destruct S3 as [S|[Su [St|[Sb _]]]]; [left; exact S| |congruence]. right. split; [exact Su|]. rewrite St, N3. lia.
   - cbn [w_chain]. exact (B3 HB2).
   - cbn [w_chain]. unfold usecs. rewrite (staking_end_block_params _ _ _ Ee). exact U2.
-  - cbn [w_chain]. rewrite (staking_end_block_slp _ _ _ Ee), S2, (begin_block_slp _ _ _ _ Eb). exact Vbp.
+  - cbn [w_chain]. rewrite (staking_end_block_slp _ _ _ Ee), S2, (begin_block_slp _ _ _ _ _ Eb). exact Vbp.
+  - cbn [w_chain]. rewrite (staking_end_block_slp _ _ _ Ee), S2, (begin_block_slp _ _ _ _ _ Eb). exact Vbp2.
 Qed.
 
 Lemma unbond_loop_BInfo ids : forall a a', unbond_loop ids a = LDone a' -> BInfo (la_chain a) -> BInfo (la_chain a').
 Proof.
   induction ids as [|i rest IH]; intros a a'; cbn [unbond_loop]; [intros [= <-]; auto|].
-  destruct (vals (stk (la_chain a)) !! i) as [v|] eqn:Hv; [|discriminate]. destruct (negb _); [discriminate|].
-  pose proof (begin_unbonding_vals (la_chain a) i v) as (vu & Hsnd & _ & _ & Hvals & _).
+  destruct (vals (stk (la_chain a)) !! i) as [v|] eqn:Hv; [|discriminate]. destruct (status_eqb (v_status v) Bonded) eqn:Est; cbn [negb]; [|discriminate].
+  pose proof (begin_unbonding_vals (la_chain a) i v) as (vu & Hsnd & Hcu & _ & Hvals & _).
   assert (Hsl : sl (fst (begin_unbonding (la_chain a) i v)) = sl (la_chain a)) by reflexivity.
-  assert (Hst : v_status vu = Unbonding) by (rewrite <- Hsnd; reflexivity).
   destruct (begin_unbonding (la_chain a) i v) as [cb vb] eqn:Eb. cbn [fst snd] in *. subst vb. intros H HB. apply (IH _ _ H). cbn [la_chain].
   intros j w. cbn. rewrite Hvals, Hsl. destruct (decide (j = i)) as [->|Hne].
-  - rewrite lookup_insert. intros [= <-]. congruence.
+  - rewrite lookup_insert. intros [= <-] _. rewrite Hcu. eapply (HB i v Hv). intros Hc. rewrite Hc in Est. discriminate.
   - rewrite lookup_insert_ne by auto. intros Hw Hs. eapply HB; eauto.
 Qed.
 
 (* ---- genesis and histories ---- *)
 Lemma init_world_VI m g :
-  wf_genesis g -> m <= g_unbond_secs g -> 0 <= g_slash_down_bp g -> VI m (init_world g).
+  wf_genesis g -> m <= g_unbond_secs g -> 0 <= g_slash_down_bp g -> 0 <= g_slash_dbl_bp g -> VI m (init_world g).
 Proof.
-  intros Hwf Hm Hbp. pose proof (init_world_WI g Hwf) as [HCI Hrel]. pose proof (genesis_chain_CI g Hwf) as HC0.
+  intros Hwf Hm Hbp Hbp2. pose proof (init_world_WI g Hwf) as [HCI Hrel]. pose proof (genesis_chain_CI g Hwf) as HC0.
   assert (HB0 : BInfo (genesis_chain g)).
-  { intros id v Hv Hs. cbn in Hv. apply list_to_map_lookup_inv in Hv. apply in_map_iff in Hv as ([i t] & Heq & _). inversion Heq; subst. cbn in Hs. discriminate. }
+  { intros id v Hv Hs. cbn in Hv. apply list_to_map_lookup_inv in Hv. apply in_map_iff in Hv as ([i t] & Heq & _). inversion Heq; subst. cbn in Hs. exfalso. apply Hs. reflexivity. }
   revert HCI Hrel. unfold init_world. fold (genesis_chain g).
   destruct (apply_valset_updates (genesis_chain g)) as [c1 upd|e] eqn:E.
   2:{ intros _ _. split; [cbn; intros vs k [=]|]. split; [cbn; intros k Hk; rewrite lookup_empty in Hk; destruct Hk; discriminate|].
-      split; [exact HB0|]. split; [unfold usecs; cbn; rewrite Z.div_mul by lia; exact Hm|exact Hbp]. }
+      split; [exact HB0|]. split; [unfold usecs; cbn; rewrite Z.div_mul by lia; exact Hm|split; [exact Hbp|exact Hbp2]]. }
   intros HCI Hrel. cbn in HCI. specialize (Hrel eq_refl). cbn in Hrel.
   assert (HB1 : BInfo c1).
   { unfold apply_valset_updates in E.
@@ -825,11 +931,11 @@ Proof.
     rewrite <- Hc1. intros id v Hv Hs. assert (HB2 : BInfo (la_chain a2)) by auto. destruct (la_upd a2); cbn in *; eapply HB2; eauto. }
   assert (Hmem : forall k, is_Some (apply_updates ∅ upd !! k) -> forall t, ok_at t (with_poa c1 {| pending := []; cached_power := last_total (stk c1); abs_changed := 0 |}) k).
   { intros k [p Hk] t. apply (Hrel k p) in Hk as (id & v & Hv & Hkv & Hl). destruct HCI as [HS _]. destruct (si_last _ HS id p Hl) as (v' & Hv' & Hb).
-    cbn in Hv, Hv'. rewrite Hv in Hv'. inversion Hv'; subst v'. exists id, v. split; [exact Hv|]. split; [exact Hkv|]. split; [|left; exact Hb]. cbn. rewrite <- Hkv. eapply HB1; eauto. }
+    cbn in Hv, Hv'. rewrite Hv in Hv'. inversion Hv'; subst v'. exists id, v. split; [exact Hv|]. split; [exact Hkv|]. split; [|left; exact Hb]. cbn. rewrite <- Hkv. eapply HB1; [exact Hv|rewrite Hb; discriminate]. }
   split; [cbn; intros vs k [=]|]. split; [cbn; intros k Hk; apply Hmem; exact Hk|].
   split; [exact HB1|]. split.
   - unfold usecs. cbn. rewrite (apply_valset_updates_params _ _ _ E). cbn. rewrite Z.div_mul by lia. exact Hm.
-  - unfold slp. cbn. clear -E Hbp. unfold apply_valset_updates in E.
+  - unfold slp. cbn. clear -E Hbp Hbp2. unfold apply_valset_updates in E.
     destruct (apply_loop _ _ _) as [a1|] eqn:L1; [|discriminate]. destruct (unbond_loop _ a1) as [a2|] eqn:L2; [|discriminate].
     destruct (if la_to_bonded a2 =? 0 then _ else _) as [b|]; [|discriminate]. injection E as Hc1 _.
     pose proof (staking_end_block_slp) as _.
@@ -847,21 +953,23 @@ Proof.
     { induction ids as [|id rest IH]; intros a a'; cbn [unbond_loop]; [intros [= <-]; reflexivity|].
       destruct (vals _ !! id) as [v|]; [|discriminate]. destruct (negb _); [discriminate|].
       destruct (begin_unbonding (la_chain a) id v) as [cb vb] eqn:Eb. unfold begin_unbonding in Eb. inversion Eb; subst. intros H. apply IH in H. rewrite H. reflexivity. }
-    apply A in L1. apply B in L2. cbn in L1. rewrite <- Hc1. destruct (la_upd a2); cbn; rewrite L2, L1; exact Hbp.
+    apply A in L1. apply B in L2. cbn in L1. rewrite <- Hc1. destruct (la_upd a2); cbn; rewrite L2, L1; (split; [exact Hbp|exact Hbp2]).
 Qed.
 
 (* BeginBlock returns no error in any block of any history, whatever the transactions and the downtime pattern were,
    as long as a block interval is shorter than the shortest unbonding period the admin ever sets (H-time) *)
 Theorem history_begin_never_halts m g bs e :
-  wf_genesis g -> 1 <= m -> m <= g_unbond_secs g -> 0 <= g_slash_down_bp g -> Forall (ut_block m) bs ->
+  wf_genesis g -> 1 <= m -> m <= g_unbond_secs g -> 0 <= g_slash_down_bp g -> 0 <= g_slash_dbl_bp g -> Forall (ut_block m) bs ->
+  ev_env (init_world g) bs ->
   w_halted (run_world (init_world g) bs) <> Some (HBeginBlock e).
 Proof.
-  intros Hwf Hm Hmu Hbp Henv.
+  intros Hwf Hm Hmu Hbp Hbp2 Henv Hev.
   pose proof (init_world_WI g Hwf) as HW. pose proof (init_world_QI g) as HQ. pose proof (init_world_BI g Hwf) as HB.
-  pose proof (init_world_VI m g Hwf Hmu Hbp) as HV.
+  pose proof (init_world_VI m g Hwf Hmu Hbp Hbp2) as HV.
   assert (H0 : w_halted (init_world g) <> Some (HBeginBlock e)) by (rewrite (init_world_not_halted g Hwf); discriminate).
   assert (HV' : w_halted (init_world g) = None -> VI m (init_world g)) by auto. clear HV.
-  revert HW HQ HB HV' H0. generalize (init_world g). induction Henv as [|b bs Hb Hbs IH]; cbn; intros w HW HQ HB HV H0; [exact H0|].
+  revert HW HQ HB HV' H0 Hev. generalize (init_world g). induction Henv as [|b bs Hb Hbs IH]; cbn; intros w HW HQ HB HV H0 Hev; [exact H0|].
+  destruct Hev as [Hev1 Hev2].
   apply IH.
   - apply run_block_WI; exact HW.
   - apply run_block_QI; [apply HW|exact HQ].
@@ -872,6 +980,7 @@ Proof.
   - destruct (w_halted w) as [r|] eqn:Hh.
     + unfold run_block. rewrite Hh. cbn. rewrite Hh. exact H0.
     + apply (block_begin_never_halts m); auto.
+  - exact Hev2.
 Qed.
 
 (* =====================  all together: what can stop the chain  ===================== *)
@@ -888,18 +997,18 @@ Proof.
 Qed.
 
 (* Under the environment hypotheses — a block interval shorter than any unbonding period in force (H-time), somebody
-   left after each block's downtime jailing (H-alive), unsigned 32-bit max_validators fields, a sane genesis — no history
+   left after each block's jailings (H-alive), evidence only about validators the chain still knows (H-evidence), unsigned 32-bit max_validators fields, a sane genesis — no history
    of blocks of transactions makes block execution return an error, and every block's validator updates are acceptable
    to CometBFT, except possibly for the total voting power exceeding CometBFT's maximum (H-maxvals' side: not excluded here). *)
 Theorem history_never_halts m g bs :
-  wf_genesis g -> 1 <= g_max_vals g -> 1 <= m -> m <= g_unbond_secs g -> 0 <= g_slash_down_bp g ->
-  Forall (ut_block m) bs -> env_ok (init_world g) bs ->
+  wf_genesis g -> 1 <= g_max_vals g -> 1 <= m -> m <= g_unbond_secs g -> 0 <= g_slash_down_bp g -> 0 <= g_slash_dbl_bp g ->
+  Forall (ut_block m) bs -> env_ok (init_world g) bs -> ev_env (init_world g) bs ->
   w_halted (run_world (init_world g) bs) = None \/ w_halted (run_world (init_world g) bs) = Some (HComet 5).
 Proof.
-  intros Hwf Hcap Hm Hmu Hbp Hut Henv.
+  intros Hwf Hcap Hm Hmu Hbp Hbp2 Hut Henv Hev.
   destruct (w_halted (run_world (init_world g) bs)) as [r|] eqn:Hh; [|left; reflexivity]. right.
   destruct r as [e|e|e].
-  - exfalso. exact (history_begin_never_halts m g bs e Hwf Hm Hmu Hbp Hut Hh).
+  - exfalso. exact (history_begin_never_halts m g bs e Hwf Hm Hmu Hbp Hbp2 Hut Hev Hh).
   - exfalso. exact (history_endblock_never_halts g bs e Hwf Hh).
   - destruct (Z.eq_dec e 5) as [->|Hne]; [reflexivity|]. exfalso.
     destruct (Z.eq_dec e 4) as [->|Hne4]; [exact (history_never_emptied g bs Hwf Hcap Henv Hh)|].
@@ -914,7 +1023,7 @@ Proof.
     assert (Hall : forall bs w, (forall x, w_halted w = Some (HComet x) -> x = 1 \/ x = 2 \/ x = 3 \/ x = 4 \/ x = 5) ->
                forall x, w_halted (run_world w bs) = Some (HComet x) -> x = 1 \/ x = 2 \/ x = 3 \/ x = 4 \/ x = 5).
     { induction bs0 as [|b bs0 IH]; cbn; intros w Hw; [exact Hw|]. apply IH. intros x. unfold run_block. destruct (w_halted w) eqn:Hhw; [cbn; rewrite Hhw; apply Hw|].
-      destruct (begin_block _ _ _); [|cbn; discriminate]. destruct (deliver_txs _ _) as [c2 outs]. destruct (staking_end_block c2) as [c3 upd|]; [|cbn; discriminate].
+      destruct (begin_block _ _ _ _); [|cbn; discriminate]. destruct (deliver_txs _ _) as [c2 outs]. destruct (staking_end_block c2) as [c3 upd|]; [|cbn; discriminate].
       destruct (comet_apply _ upd) eqn:Ec; cbn; [discriminate|]. intros [= <-]. eapply Hcodes; eauto. }
     destruct (Hall bs (init_world g)) with (x := e) as [?|[?|[?|[?|?]]]]; try lia; [|exact Hh].
     intros x. unfold init_world. destruct (apply_valset_updates _); cbn; discriminate.
